@@ -388,7 +388,7 @@ class Rig:
             a = ctr + half * rng.normal(0, 2.0, size=lo.shape)
             if mode == "corner":
                 a = ctr + half * 5.0 * rng.choice([-1.0, 1.0], size=lo.shape)
-            return jnp.asarray(a.astype(np.float32))
+            return jnp.asarray(np.asarray(a, np.float32))
         if mode == "corner":
             a = np.where(rng.random(lo.shape) < 0.5, lo, hi)
         elif mode == "hi":
@@ -397,6 +397,7 @@ class Rig:
             a = lo.copy()
         else:
             a = rng.uniform(lo, hi)
+        a = np.asarray(a, np.float64)
         return jnp.asarray(np.clip(a.astype(np.float32), lo.astype(np.float32), hi.astype(np.float32)))
 
     def _base_bounds(self):
@@ -679,10 +680,14 @@ def _run_builtin(ctx, name, base, specs, *, chains, horizon, dt, resets, family)
             if state is None or rig.dead:
                 break
             extra = ""
-            if planted:
+
+            def plant(st, ch=ch, limits=limits):
                 # counter k (< every bound) with t = k*dt; k = N-1 makes the time limit fire on the next step
                 k = (min(limits) - 1) if (limits and ch % 2 == 1) else int(rng.integers(0, (min(limits) if limits else 8)))
-                state = _plant(state, y=_planted_y(name, rng), t=k * dt, count=k if limits else None)
+                return _plant(st, y=_planted_y(name, rng), t=k * dt, count=k if limits else None)
+
+            if planted:
+                state = plant(state)
                 extra = "/planted"
             mode = _steer_mode(name, rng) if ch % 2 == 0 else "random"
             const = rig.any_action("corner" if family != "classic" else "random")
@@ -693,10 +698,12 @@ def _run_builtin(ctx, name, base, specs, *, chains, horizon, dt, resets, family)
                     a = rig.any_action(mode)
                 else:
                     a = rig.any_action("corner" if rng.random() < 0.25 else "random")
-                res = rig.step(state, a, chain=ch, i=i, limits=limits, extra_cls=extra if i < 3 else "")
+                res = rig.step(state, a, chain=ch, i=i, limits=limits, extra_cls=extra)
                 if res is None:
                     break
                 state = res[0]
+                if planted and res[1] and rng.random() < 0.8:
+                    state = plant(state)  # start the next episode near its end as well
         rig.env = _set_limits(env, _limits_for(rng, n_tl, False))
         rig.freshness(n_resets=resets, n_pairs=ctx.n(8, 24))
 
@@ -717,7 +724,8 @@ def u_classic(ctx, name):
     ctx.require("boundary_steps_judged", ctx.n(15, 150))
     ctx.require("truncation_only_endings", 5)
     if name != "Pendulum":
-        ctx.require("terminal_only_endings", 3)
+        ctx.require("terminal_only_endings", 5)
+        ctx.require("both_flags_endings", 2)
     ctx.require("resets_judged", 64)
     ctx.require("freshness_sets_judged", 2)
     ctx.require("key_pair_sets_judged", 1)
